@@ -60,6 +60,11 @@ func vfC04WGen(rt *rapid.T) *vfC04WCase {
 	if rapid.IntRange(0, 3).Draw(rt, "wild") == 0 {
 		owners["*.w.z.test."] = []uint16{dns.TypeTXT}
 	}
+	// an existing name whose spelling ends like the denied nope.z.test. but whose first label holds a literal dot
+	lookalike := rapid.Bool().Draw(rt, "lookalike")
+	if lookalike {
+		owners["x\\.nope.z.test."] = []uint16{dns.TypeA}
+	}
 	// aliases whose target lives shorter (or longer) than the alias: one across the cut, one inside the zone
 	var hosts []string
 	for o := range owners {
@@ -108,9 +113,13 @@ func vfC04WGen(rt *rapid.T) *vfC04WCase {
 		}
 		st := vfC04WStep{DO: rapid.Bool().Draw(rt, "do"), CD: rapid.IntRange(0, 7).Draw(rt, "cd") == 0, Wire: rapid.Bool().Draw(rt, "wire"), Client: byte(rapid.IntRange(1, 3).Draw(rt, "client")),
 			Qtype: rapid.SampledFrom([]uint16{dns.TypeA, dns.TypeA, dns.TypeA, dns.TypeTXT, dns.TypeAAAA}).Draw(rt, "qtype")}
-		switch rapid.IntRange(0, 11).Draw(rt, "namekind") {
+		switch rapid.IntRange(0, 13).Draw(rt, "namekind") {
 		case 0:
 			st.Name = "alias.test."
+		case 12:
+			st.Name = rapid.SampledFrom([]string{"nope.z.test.", "sub.nope.z.test.", "NOPE.z.test."}).Draw(rt, "nopename")
+		case 13:
+			st.Name = "x\\.nope.z.test."
 		case 10:
 			st.Name = "ali.test."
 		case 11:
